@@ -64,7 +64,14 @@ pub fn gen_zone(r: &mut StdRng, apex: &str, class: u16, children: &[&str], o: Zo
     let mut recs: Vec<Rec> = Vec::new();
     let sub = |l: &str| -> String { if apex == "." { format!("{}.", l) } else { format!("{}.{}", l, apex) } };
     let has_soa = !o.weird || r.gen_bool(0.6);
-    if has_soa {
+    if o.weird && r.gen_bool(0.3) {
+        // an apex SOA whose names are fine but whose fixed part is short / long (the zone API accepts any octets)
+        let mut rd = w(&sub("ns"));
+        rd.extend(w(&sub("admin")));
+        let extra = *[0usize, 1, 4, 15, 16, 19, 21].choose(r).unwrap();
+        rd.extend((0..extra).map(|_| r.gen::<u8>()));
+        recs.push(Rec { owner: apex.into(), ty: 6, ttl: 77, rdata: rd });
+    } else if has_soa {
         let soa_ttl = *[30u32, 300, 3600, 86400].choose(r).unwrap();
         let minimum = *[0u32, 60, 300, 7200].choose(r).unwrap();
         let mut rd = w(&sub("ns"));
@@ -168,6 +175,22 @@ pub fn gen_zone(r: &mut StdRng, apex: &str, class: u16, children: &[&str], o: Zo
                 rd.extend(s);
                 recs.push(Rec { owner: owner.clone(), ty: 16, ttl: 778, rdata: rd });
             }
+        }
+        // a delegation to thirty out-of-zone name servers: the referral alone overflows 512 octets, and the last name
+        // written into RDATA before the overflow shares no suffix with the QNAME
+        for i in 0..30 {
+            recs.push(Rec { owner: sub("manyns"), ty: 2, ttl: 901, rdata: w(&format!("ns{}.elsewhere.", i)) });
+        }
+        // an out-of-zone name server at the apex: its name is written in full (no suffix shared with the QNAME)
+        recs.push(Rec { owner: apex.into(), ty: 2, ttl: 3600, rdata: w("ns.elsewhere.") });
+        // ... and an out-of-zone mail exchanger: in an ANY answer it is the last name written into RDATA before the TXT
+        // RRset overflows
+        recs.push(Rec { owner: apex.into(), ty: 15, ttl: 3600, rdata: { let mut v = vec![0, 10]; v.extend(w("mail.elsewhere.")); v } });
+        // fat TXT data at the apex: ANY / TXT at the apex overflows 512 octets after SOA and NS (names in RDATA) were written
+        for i in 0..3u8 {
+            let mut rd = vec![200u8];
+            rd.extend(std::iter::repeat(b'k' + i).take(200));
+            recs.push(Rec { owner: apex.into(), ty: 16, ttl: 778, rdata: rd });
         }
         // a fat delegation: many NS with in-bailiwick glue (A + AAAA), some siblings
         let del = sub("fat");
